@@ -159,6 +159,9 @@ func propC15(c *Ctx, r *Report) {
 	r.Clauses = append(r.Clauses, indexLenClause)
 	c.runIndexLen(r, "shape.indexlen", inPkgs("msl", "hlsl", "glsl", "spirv"))
 	r.floor("shape.indexlen", 5)
+	r.Clauses = append(r.Clauses, recursionDepthClause+" - the zero-initialisation of workgroup memory")
+	c.runRecursionDepth(r, "recursion.depth", inPkgs("msl", "hlsl", "glsl", "spirv"))
+	r.floor("recursion.depth", 3)
 	r.Clauses = append(r.Clauses, kindLimitClause+" - the constants the backends print for INT_MIN and the conversion clamps")
 	c.runKindLimits(r, "range.kindlimit", inPkgs("msl", "glsl", "hlsl", "spirv", "wgsl"))
 	r.floor("range.kindlimit", 10)
